@@ -10,6 +10,19 @@ USES = {}
 EXTRACTORS = {}
 
 
+def _load():
+    import glob, importlib
+    for f in sorted(glob.glob(os.path.join(os.path.dirname(os.path.abspath(__file__)), "ex_*.py"))):
+        m = importlib.import_module("translator." + os.path.basename(f)[:-3])
+        for name, fn in getattr(m, "EXTRACTORS", {}).items():
+            EXTRACTORS[name] = fn
+        for pid, names in getattr(m, "USES", {}).items():
+            USES.setdefault(pid, [])
+            for n in names:
+                if n not in USES[pid]:
+                    USES[pid].append(n)
+
+
 def write_if_changed(name, text):
     os.makedirs(GEN, exist_ok=True)
     p = os.path.join(GEN, name)
@@ -21,6 +34,7 @@ def write_if_changed(name, text):
 
 
 def regenerate_for(pid):
+    _load()
     notes = []
     for ex in USES.get(pid, []):
         changed = EXTRACTORS[ex]()
@@ -29,5 +43,6 @@ def regenerate_for(pid):
 
 
 def regenerate_all():
+    _load()
     for ex in sorted(EXTRACTORS):
         EXTRACTORS[ex]()
